@@ -10,7 +10,14 @@ Tie: the `eqhash` harness builds the same abstract value through different const
 set lookups, len of two-key dicts, sorted(), hash(), plus Value::equals / compare / get_hashed from Rust.  Every
 observation is compared with (1) the Coq model run on the implementation's own representation of the values
 (Eq/Cases.v, vm_compute) and (2) the specification = mathematical equality / order of the abstract values (Python
-exact arithmetic below).  Disagreements with the specification are classified by narrow keys."""
+exact arithmetic below).  Disagreements with the specification are classified by narrow keys.
+
+Sorting tie: sorted(xs) / sorted(xs, reverse=True) WITHOUT key, sorted with key=, min and max, on lists of every length
+0..200 around the thresholds of the usual sort algorithms (16, 20, 21, 32, 33, 64, 128; also 255..1000, thorough up to
+5000) whose elements are equal but distinguishable (1 / 1.0, 0 / 0.0 / -0.0, tuples and lists of such twins, tagged tuples
+under a key), in random / sorted / reversed / few-keys / runs / sawtooth / organ-pipe / nearly-sorted / all-equal orders.
+The result is compared as the exact sequence of (value, type) with the specification `stable sort under the exact order`
+(min / max: the first extremal element) and, for a sample, with the Coq model's isort, the object of C09_sort_stable_perm."""
 import struct
 from fractions import Fraction
 from functools import cmp_to_key
@@ -28,7 +35,11 @@ TRUSTED = ["binary64 modelled exactly as m*2^e in canonical form; num-bigint's t
            "coqc vm_compute evaluation of Eq/Cases.v (cases.v route)"]
 ASSUMPTIONS = ["dict/set/struct equality and ordering are checked against the specification only (not in the Coq model)",
                "sorted(): the theorem is proved for insertion sort as the representative stable sort; the tie compares sorted() "
-               "of the implementation with it on lists that are pairwise comparable",
+               "of the implementation with it on lists that are pairwise comparable (lists of up to 33 elements and lists that must be "
+               "refused through sorted_model = all-pairs comparability test + isort; longer lists, pairwise comparable in the "
+               "specification, through isort (key_leb reverse) alone), and with the specification's stable sort on every generated list",
+               "min()/max() are checked against the specification `first minimal / maximal element` (Python's rule, which the code "
+               "follows) and against the head of the model's stable ascending / descending sort",
                "the model/implementation tie is differential testing over generated families of values"]
 
 K_F1 = "C09/hash-incoherent/bigint-vs-float"
@@ -1453,29 +1464,37 @@ def shrink_sort_failure(ctx, c, form_index, key):
 
 
 def coq_rows(ctx, items, prefix, per_eval=1500):
-    """Run Eq/Cases.v's `run` on (case text, size, cost) items, balanced over coqc processes by cost;
-    -> list of rows (None where coqc failed) and an error text."""
+    """items: (list literal, [case constructors applied to it, e.g. "CSort false"], size, cost).  Runs Eq/Cases.v's `run`
+    on every (constructor, list), balanced over coqc processes by cost; -> per item the list of rows (None where coqc
+    failed) and an error text.  The list is bound by an un-annotated Definition first: elaborating a long list literal
+    against an expected type is ~30x slower."""
     if not items:
         return [], None
     nshard = min(sv.NPROC, len(items))
     shards = [[] for _ in range(nshard)]
     load = [0] * nshard
-    for idx in sorted(range(len(items)), key=lambda i: -items[i][2]):
+    for idx in sorted(range(len(items)), key=lambda i: -items[i][3]):
         k = load.index(min(load))
         shards[k].append(idx)
-        load[k] += items[idx][2]
+        load[k] += items[idx][3]
     files = []
     for s, part in enumerate(shards):
         text = ("From Coq Require Import ZArith List.\nFrom SV Require Import Int.Model Eq.Model Eq.Cases.\nImport ListNotations.\n"
                 "Open Scope Z_scope.\n")
         chunk, w = [], 0
         for idx in part + [None]:
-            if idx is None or (chunk and w + items[idx][1] > per_eval):
+            if idx is None or (chunk and w + items[idx][2] > per_eval):
                 text += "Eval vm_compute in (run_cases [] [\n%s]).\n" % ";\n".join(chunk)
                 chunk, w = [], 0
             if idx is not None:
-                chunk.append(items[idx][0])
-                w += items[idx][1]
+                lit, ctors, size, _ = items[idx]
+                if lit == "[]":
+                    name = "(@nil value)"
+                else:
+                    name = "l%d" % idx
+                    text += "Definition %s := %s.\n" % (name, lit)
+                chunk += ["%s %s" % (ct, name) for ct in ctors]
+                w += size
         files.append(("%s_%d" % (prefix, s), text))
     outs = sv.coq_eval_files(ctx, files, timeout=900)
     rows = [None] * len(items)
@@ -1483,11 +1502,14 @@ def coq_rows(ctx, items, prefix, per_eval=1500):
     for part, (rc, out) in zip(shards, outs):
         vals = sv.coq_values(out) if rc == 0 else None
         got = [x for v in (vals or []) for x in v]
-        if rc != 0 or len(got) != len(part):
-            err = "coqc failed on model cases (%s rows of %d): %s" % (len(got), len(part), out[-400:])
+        want = sum(len(items[idx][1]) for idx in part)
+        if rc != 0 or len(got) != want:
+            err = "coqc failed on model cases (%s rows of %d): %s" % (len(got), want, out[-400:])
             continue
-        for idx, row in zip(part, got):
-            rows[idx] = row
+        k = 0
+        for idx in part:
+            rows[idx] = got[k:k + len(items[idx][1])]
+            k += len(items[idx][1])
     return rows, err
 
 
@@ -1535,7 +1557,7 @@ def evaluate_sort(ctx, cases, with_model=True, model_budget=None):
         # cost of a row = number of exact comparisons the model performs (each builds ~1100-bit integers for floats):
         # lists of up to 33 elements (and the lists that must be refused) go through sorted_model (all-pairs comparability
         # test + isort), longer ones, which are pairwise comparable in the specification, through isort alone
-        budget = model_budget if model_budget is not None else ctx.n(250000, 5000000)
+        budget = model_budget if model_budget is not None else ctx.n(150000, 4000000)
         pick = [ci for ci in good if cases[ci]["meta"]["n"] <= SORT_MODEL_MAX_N and cases[ci]["meta"].get("flavour") != "f3"
                 and all(modelable(x) for x in res[ci]["values"][0]["v"])]
         ctx.rng.shuffle(pick)
@@ -1550,30 +1572,29 @@ def evaluate_sort(ctx, cases, with_model=True, model_budget=None):
                 if ks is None or (kname == "fst" and not any(f.get("key") == "fst" for f in meta["forms"])):
                     continue
                 aks = [absval(x) for x in ks]
+                cost = 50
                 for rev in (False, True):
                     if meta.get("expect_err"):
-                        cost = 2 * n * n
+                        cost += 2 * n * n
                     else:
                         order = spec_stable_order(aks, rev)
                         cls = [0] * n
                         for a_, b_ in zip(order, order[1:]):
                             cls[b_] = cls[a_] + (1 if spec_cmp(aks[a_], aks[b_]) != 0 else 0)
-                        cost = n + sum(1 for i in range(n) for j in range(i + 1, n) if cls[j] < cls[i]) + (n * n if full else 0)
-                    cost += 50
-                    if used + cost > budget or cost > budget // 8:
-                        continue
-                    items.append(("%s %s [%s]" % ("CSort" if full else "CISort", "true" if rev else "false", ";".join(coq_val(x) for x in ks)), n + 5, cost))
-                    infos.append((ci, kname, rev))
-                    used += cost
+                        cost += n + sum(1 for i in range(n) for j in range(i + 1, n) if cls[j] < cls[i]) + (n * n if full else 0)
+                if used + cost > budget or cost > budget // 8:
+                    continue
+                ctor = "CSort" if full else "CISort"
+                items.append(("[%s]" % ";".join(coq_val(x) for x in ks), [ctor + " false", ctor + " true"], n + 5, cost))
+                infos.append((ci, kname))
+                used += cost
         ctx.log("sort: implementation vs specification done; running the Coq model on %d rows (%d lists, %d comparisons)"
-                % (len(items), len({i[0] for i in infos}), used))
+                % (2 * len(items), len({i[0] for i in infos}), used))
         rows, err = coq_rows(ctx, items, "eqsort")
         ctx.log("sort: Coq model rows done")
         if err:
             failures.append({"key": "C09/model-run-failed", "what": err, "replay": {"out": err}})
-        for row, (ci, kname, rev) in zip(rows, infos):
-            if row is None:
-                continue
+        for (ci, kname), rev, row in [(inf, rev, rr[k]) for inf, rr in zip(infos, rows) if rr is not None for k, rev in enumerate((False, True))]:
             mrun += 1
             c, r = cases[ci], res[ci]
             elems = [norm_abs(absval(x)) for x in r["values"][0]["v"]]
@@ -1706,7 +1727,10 @@ META = {
                   "the table extracted from the code on every run (currently refuted: F1, big ints inherit the default get_hash); equality is "
                   "transitive and equals mathematical equality on values whose integers are <= 2^53 in magnitude and is refuted beyond (F3); "
                   "ordering is antisymmetric, agrees with equality, is transitive on float-free values, total within a type, and is the order of Z "
-                  "on integers; insertion sort (the model's stable sort) returns a stably ordered permutation.",
+                  "on integers; insertion sort (the model's stable sort) returns a stably ordered permutation.  sorted() with and without "
+                  "key=, in both directions, and min()/max() are tied to that model and to the specification (stable sort of the exact "
+                  "order, compared as sequences of (value, type)) on lists of length 0..1000 (thorough 5000) of equal-but-distinguishable "
+                  "elements; two panics of sorted() on the unchanged tree are known findings (F17, F17b).",
     "level_note": "Trusted: Coq kernel; tools/extract.py (hash routes, mixing constants); harness bin eqhash; the Python specification oracle; string "
                   "hashing is an abstract content function in the model; dict/set/struct equality is checked against the specification only; "
                   "sorted() is tied to the model by testing, its stability theorem is about the insertion-sort representative. The tie is "
